@@ -31,7 +31,7 @@ Print Assumptions C07_tie_exit_loop.
    the removal guard of C03.) Partial: that the loop does leave is not proved here - it needs real time to
    pass the grace period; the fault enumeration observes it (no child hangs). *)
 Theorem C07_stop_drains_partial : forall K s0 ops ticks s',
-  (forall t, th s0 t = thr0 /\ issued s0 t = [] /\ delivered s0 t = []) ->
+  (forall t, fresh_thr (th s0 t) /\ issued s0 t = [] /\ delivered s0 t = []) ->
   (newflag s0 = false -> cache s0 = registered s0) -> pos_ops ops ->
   let s := run K s0 ops in
   exit_drain K ticks s = (s', true) ->
@@ -41,7 +41,7 @@ Theorem C07_stop_drains_partial : forall K s0 ops ticks s',
 Proof.
   intros K s0 ops ticks s' H0 Hf Hp s Hd.
   assert (G0 : Good K s0).
-  { split; [intro u; destruct (H0 u) as (-> & -> & ->); apply TInv_thr0|intros u e; destruct (H0 u) as (-> & _); discriminate]. }
+  { split; [intro u; destruct (H0 u) as ((v & ->) & -> & ->); apply TInv_fresh|intros u e; destruct (H0 u) as ((v & ->) & _); discriminate]. }
   pose proof (run_good K ops Hp s0 G0) as G. pose proof (run_flag K ops s0 Hf) as Fl.
   destruct (exit_drain_spec K ticks _ _ G Fl Hd) as (_ & Hall & Hfl).
   split; [|exact Hfl]. intros t Ht. destruct (Hall t Ht) as (A & B & Cc). split; [exact A|]. split; [exact B|].
